@@ -33,7 +33,9 @@ PLAN = {
 }
 RULE = ("70% cpd cases: child card 1-4, 0-4 parents of card 1-4 (<= 1024 cells), variable names str/int/tuple/"
         "mixed, state names id/1-based/permuted ints/strings/tuples/mixed/shared-strings/bools, table normalised "
-        "(zeros, deterministic columns) or un-normalised positive, given as list/tuple/ndarray/F-ordered ndarray; "
+        "(zeros, deterministic columns) or un-normalised weights (ordinary magnitude, or columns of very different "
+        "magnitude: per-column scale log-uniform 1e-14..1e6, tiny/huge/ordinary columns mixed, zeros inside positive "
+        "columns, every column total > 0), given as list/tuple/ndarray/F-ordered ndarray; "
         "ALL parent permutations x inplace in {True,False}; ALL parent subsets x {marginalize, reduce} x inplace; "
         "normalize, copy, to_factor, aliasing, a random chain of 2-5 transformations, is_valid_cpd at column sums "
         "1 +- {0,0.004,0.02,0.2} (one column, several columns, balanced +/-). 30% model cases: random BN "
@@ -43,7 +45,8 @@ RULE = ("70% cpd cases: child card 1-4, 0-4 parents of card 1-4 (<= 1024 cells),
         "case with child card >= 2 and >= 1 parent of card >= 2; model case with >= 2 nodes and >= 1 edge; "
         "distinct by digest of the whole spec")
 ASSUMPTIONS = ["the spec's 2-D table with the declared evidence order is the reference conditional",
-               "float64 comparisons at 1e-9 (1e-6 in torch cells: torch.Tensor() passes through float32)",
+               "float64 comparisons at RELATIVE 1e-9 per entry (1e-6 in torch cells: torch.Tensor() passes through float32)",
+               "columns whose total is exactly 0 are never generated (0/0 is not decided by the statement)",
                "state-name lists are compared with ==",
                "column sums are never generated closer than 0.003 to the documented boundary 0.01 (+1e-5)",
                "a network that is not accepted (any exception) counts as rejected"]
@@ -125,6 +128,35 @@ def _unnorm_table(rng, r, q):
     return [[cols[j][i] for j in range(q)] for i in range(r)]
 
 
+def _magnitude_table(rng, r, q):
+    """Un-normalised weights whose COLUMNS differ by many orders of magnitude (weighted counts, likelihood
+    products): per-column scale log-uniform over 1e-14..1e6, tiny / huge / ordinary columns mixed in one table,
+    zeros inside otherwise positive columns; every column total is > 0."""
+    shared = rng.random() < 0.25            # whole table at one (possibly tiny) scale: sums of tiny columns stay tiny
+    base = 10 ** rng.uniform(-14, 6)
+    cols = []
+    for _ in range(q):
+        u = rng.random()
+        if shared:
+            scale = base * 10 ** rng.uniform(-1, 1)
+        elif u < 0.15:
+            scale = 1.0
+        elif u < 0.45:
+            scale = 10 ** rng.uniform(-14, -8)
+        elif u < 0.60:
+            scale = 10 ** rng.uniform(2, 6)
+        else:
+            scale = 10 ** rng.uniform(-14, 6)
+        col = [rng.choice(gen.GRID) * (0.5 + rng.random()) * scale for _ in range(r)]
+        if r > 1 and rng.random() < 0.3:
+            for i in rng.sample(range(r), rng.randint(1, r - 1)):
+                col[i] = 0.0
+        if sum(col) <= 0:
+            col[0] = 0.7 * scale
+        cols.append(col)
+    return [[cols[j][i] for j in range(q)] for i in range(r)]
+
+
 def _offset_column(table, j, delta, mode):
     """Return a copy of `table` whose column j sums to (old sum + delta)."""
     r = len(table)
@@ -184,11 +216,17 @@ def gen_cpd_case(rng, tier):
     sk = rng.choice(STATE_KINDS)
     cards = [r] + pc
     states = [_states(rng, v, k, sk) for v, k in zip(vars_, cards)]
-    unnorm = rng.random() < (0.7 if r == 1 else 0.3)
-    table = _unnorm_table(rng, r, q) if unnorm else gen.rand_cpt(rng, r, q, zeros=True)
+    unnorm = rng.random() < (0.75 if r == 1 else 0.4)
+    unnorm_kind = None
+    if unnorm:
+        unnorm_kind = "magnitudes" if rng.random() < 0.6 else "ordinary"
+        table = _magnitude_table(rng, r, q) if unnorm_kind == "magnitudes" else _unnorm_table(rng, r, q)
+    else:
+        table = gen.rand_cpt(rng, r, q, zeros=True)
     base = gen.rand_cpt(rng, r, q, zeros=rng.random() < 0.5)
     return {
         "kind": "cpd", "vars": vars_, "cards": cards, "states": states, "table": table, "unnorm": unnorm,
+        "unnorm_kind": unnorm_kind,
         "names_kind": nk, "state_kind": sk,
         "form": rng.choice(["list", "list", "tuple", "ndarray", "ndarray-F"]),
         "ev_form": rng.choice(["list", "list", "tuple", "ndarray-card"]),
@@ -439,9 +477,16 @@ def _tol(ctx):
     return 1e-6 if str(ctx.backend).startswith("torch") else 1e-9
 
 
+def _isclose(a, b, tol):
+    """Element-wise RELATIVE closeness (tables hold weights from 1e-16 to 1e6; every quantity compared is a
+    sum / quotient of non-negative terms, so its relative rounding error is a few ulp).  NaN is never close."""
+    with np.errstate(all="ignore"):
+        return (a == b) | (np.abs(a - b) <= tol * np.maximum(np.abs(a), np.abs(b)) + 1e-290)
+
+
 def _close(a, b, tol):
     a, b = np.asarray(a, dtype=float), np.asarray(b, dtype=float)
-    return a.shape == b.shape and bool(np.allclose(a, b, atol=tol, rtol=tol))
+    return a.shape == b.shape and bool(np.all(_isclose(a, b, tol)))
 
 
 def _colnorm(a):
@@ -492,7 +537,7 @@ def inspect(obj, exp, tol, cond_only=False, want_order=None, is_cpd=True):
     if cond_only:
         got, want = _colnorm(got), _colnorm(want)
     if not _close(got, want, tol):
-        bad = np.argwhere(~np.isclose(got, want, atol=tol, rtol=tol))
+        bad = np.argwhere(~_isclose(got, want, tol))
         where = tuple(int(x) for x in bad[0]) if len(bad) else ()
         asg = {repr(v): exp.states[v][where[i]] for i, v in enumerate(scope)} if where else {}
         probs.append(("c05:wrong-conditional", f"P at {asg}: got {got[where] if where else got!r}, "
@@ -645,6 +690,9 @@ def run_cpd(spec, ctx):
     ctx.nontrivial = card[child] >= 2 and any(card[p] >= 2 for p in parents)
     for f in (f"parents:{npar}", f"names:{spec['names_kind']}", f"states:{spec['state_kind']}", f"form:{spec['form']}",
               f"evform:{spec['ev_form']}", "unnormalised" if cond else "normalised",
+              f"unnormalised:{spec['unnorm_kind']}" if cond else None,
+              "tiny-column(total<=1e-8)" if cond and any(
+                  0 < math.fsum(row[j] for row in spec["table"]) <= 1e-8 for j in range(len(spec["table"][0]))) else None,
               "card1-child" if card[child] == 1 else None, "card1-parent" if any(card[p] == 1 for p in parents) else None,
               "extra-state-names" if spec["extra"] else None, "no-state-names-arg" if spec["no_state_names"] else None,
               "empty-evidence-list" if spec["empty_ev_list"] else None):
